@@ -58,4 +58,36 @@ func init() {
 			return chunk("main", "prod", n, pick(tier, 500, 10000), Job{Timeout: 30 * time.Minute})
 		},
 	})
+	register(&Plan{
+		Prop:  "C01",
+		Level: "exploration",
+		Rule: "one child process per level registry (index 0 = built-ins only, others = 2-5 random custom levels: negative, = MaxLevel, above it, with/without treat-as and error device). Inside a child the admission table is enumerated completely: " +
+			"logger levels x severities (registry + one unregistered) x debug-mode histories (off, on directly, on as a side effect of SetLevel/WithLevel/package SetLevel(Debug), off again) x 4 logger kinds (root as Logger, root as *Entry, child, default) x every public entry point " +
+			"(12 verbs + Println, 12 Context verbs, LogAttrs, Logit, Log with 10 log/slog levels, Infof/Warnf/Errorf, Verbose x2, and the package-level twins). A cell = one call; oracle: (bytes reached any recording writer) == admit(L, r, debug) and Enabled/EnabledContext == admit. " +
+			"non-trivial = every executed cell; distinct = by (kind, entry, L, r, history)",
+		Assumptions: []string{"OK/Success count as Info and Fail as Error when gated (the library's documented built-in treat-as table)", "SetLevel(Debug) on the logger under test itself switches debug mode on (modelled)", "LnoInterrupt is set in the child so that Panic/Fatal severities can be issued"},
+		Floors:      map[string]int64{"cells": 5000, "records_emitted": 1000, "calls_silent": 1000},
+		Exhaustive:  func(string) bool { return true },
+		Jobs: func(tier string, seed int64) []Job {
+			n := pick(tier, 3, 200)
+			return chunk("table", "prod", n, 1, Job{Timeout: 20 * time.Minute})
+		},
+	})
+	register(&Plan{
+		Prop:  "C03",
+		Level: "exploration",
+		Rule: "a reference model of the writer configuration (normal list, error list, per-level lists, package defaults for a logger never given writers) is advanced with each operation sequence; the sequence is applied to a fresh root and to a child of a configured parent, as methods and (when every operation has one) as New(...) options; " +
+			"then one probe record with a unique id is issued at each of 14 severities (built-ins, custom with/without error device, unregistered) and the per-writer Write counts (recording writers of 6 shapes, fds 1/2 redirected onto files) must equal the selected list; LevelSettable destinations must have been told the severity before each Write. " +
+			"exh: ALL sequences up to the length bound over a reduced alphabet (30 operations); rand: random sequences of 3-10 operations over the full alphabet (6 writers, 8 levels). A failing sequence is shrunk by dropping operations. non-trivial = every judged (logger kind, form, sequence); distinct = by that triple",
+		Assumptions: []string{"a removal that meets several copies of the writer may leave k-1 or 0 copies", "the package-level default writer itself is not reconfigured"},
+		Floors:      map[string]int64{"probes": 5000, "write_events": 3000, "fallback_bytes": 1000, "levelsettable_writes": 100},
+		Exhaustive:  func(string) bool { return true },
+		Jobs: func(tier string, seed int64) []Job {
+			// alphabet 30: lengths <=2 -> 931 sequences, <=3 -> 27931
+			n := pick(tier, 931, 27931)
+			js := chunk("exh", "prod", n, pick(tier, 80, 1800), Job{Timeout: 30 * time.Minute})
+			js = append(js, chunk("rand", "prod", pick(tier, 3000, 100000), pick(tier, 400, 6500), Job{Timeout: 30 * time.Minute})...)
+			return js
+		},
+	})
 }
